@@ -95,12 +95,16 @@ class SCont:
     ys: Set[bool]
     zs: List[List[int]]
     d: Dict[str, int]
+    mp: Dict[str, int]
+    sq: List[int]
 @dataclasses.dataclass
 class DCont:
     xs: List[Optional[int]]
     ys: Set[int]
     zs: List[List[Any]]
     d: Dict[str, Optional[int]]
+    mp: typing.Mapping[str, Optional[int]]           # abstract destinations are built anew as well
+    sq: typing.Sequence[Optional[int]]
 R = ConversionRetort()
 C_CONT = R.get_converter(SCont, DCont)
 def f_len(src): return src.a + src.c + 1
@@ -166,13 +170,16 @@ def nested(n, x, y, isnone, a, rating):
 def containers(n, x, b):
     """element-wise converted containers are new objects even when every element is passed as is (only equal types are as-is)"""
     n = pick(n, 3)
-    src = SCont(xs=[x] * n, ys={b}, zs=[[x]] * n, d={"k": x})
+    src = SCont(xs=[x] * n, ys={b}, zs=[[x]] * n, d={"k": x}, mp={"m": x}, sq=[x] * n)
     out = C_CONT(src)
-    if out != DCont(xs=[x] * n, ys={b}, zs=[[x]] * n, d={"k": x}): return False
-    if out.xs is src.xs or out.ys is src.ys or out.zs is src.zs or out.d is src.d: return False
+    if out != DCont(xs=[x] * n, ys={b}, zs=[[x]] * n, d={"k": x}, mp={"m": x}, sq=tuple([x] * n)): return False
+    if out.xs is src.xs or out.ys is src.ys or out.zs is src.zs or out.d is src.d or out.mp is src.mp or out.sq is src.sq: return False
     if n and out.zs[0] is src.zs[0]: return False
+    out2 = C_CONT(src)
+    if out2.mp is out.mp or out2.d is out.d or out2.xs is out.xs: return False          # nor do two results share a container
     out.xs.append(None); out.d["new"] = None
-    return src == SCont(xs=[x] * n, ys={b}, zs=[[x]] * n, d={"k": x})
+    if isinstance(out.mp, dict): out.mp["new"] = None
+    return src == SCont(xs=[x] * n, ys={b}, zs=[[x]] * n, d={"k": x}, mp={"m": x}, sq=[x] * n)
 
 # coercers aimed at a generic position: dict keys (0), dict values (1), list elements (0)
 @dataclasses.dataclass
